@@ -56,6 +56,8 @@ def campaign(seed, seconds, workers_per_target=2, max_len=4096, asl_workers=6):
         if tool == "asl":
             seeds = os.path.join(d, "seeds")
             asl_seeds(seeds, max_len)
+            from . import fuzzcorpus
+            fuzzcorpus.unpack_to(os.path.join(d, "saved"), limit=None if seconds >= 300 else 1500)
             workers = asl_workers
         regress = os.path.join(FUZZ, "regress", tool)
         argv = [fuzzbuild.exe(tool), "-seed=%d" % (seed % (1 << 31)), "-max_total_time=%d" % seconds,
@@ -63,7 +65,7 @@ def campaign(seed, seconds, workers_per_target=2, max_len=4096, asl_workers=6):
                 "-fork=%d" % workers, "-ignore_crashes=1", "-ignore_timeouts=1", "-ignore_ooms=1",
                 "-artifact_prefix=" + os.path.join(d, "art") + "/", "-print_final_stats=1",
                 os.path.join(d, "corpus")]
-        for s in (seeds, regress):
+        for s in (seeds, regress, os.path.join(d, "saved")):
             if os.path.isdir(s) and os.listdir(s):
                 argv.append(s)
         dic = os.path.join(FUZZ, "dict_%s.txt" % ("asl" if tool == "asl" else "pfile"))
